@@ -147,14 +147,19 @@ func corrupt(lines []string, d asm.Dialect, m int, r *Rng) ([]string, string) {
 		}
 		out[i] = join(f)
 	case 7:
+		// any of the four '88 modes in either operand: DAT $.., JMP #.., MOV ..,# and the like are illegal in '88
 		kind = "illegal-88-combination"
 		i := pickLine()
 		f := fieldsOf(out[i])
 		if len(f) >= 6 {
+			md := []string{"#", "$", "@", "<"}[r.Intn(4)]
 			if r.Bool() {
-				f[1] = "#"
+				f[1] = md
 			} else {
-				f[4] = "#"
+				f[4] = md
+			}
+			if r.Chance(1, 3) {
+				f[0] = []string{"DAT", "JMP", "MOV", "SPL", "DJN", "SLT", "CMP", "ADD"}[r.Intn(8)]
 			}
 		}
 		out[i] = join(f)
